@@ -367,7 +367,11 @@ func genMap(t *rapid.T) *refModel {
 			m.regs[uint16(from+i)] = 0
 		}
 	}
-	switch rapid.IntRange(0, 4).Draw(t, "mapKind") {
+	switch rapid.IntRange(0, 5).Draw(t, "mapKind") {
+	case 5: // the registers behind the upper half and the top of the coil space (coil n = bit n%16 of register n/16)
+		addRange(0, 20)
+		addRange(2040, 24)
+		addRange(4080, 16)
 	case 0: // dense from 0
 		addRange(0, rapid.SampledFrom([]int{1, 8, 125, 126, 130, 140, 260}).Draw(t, "dense"))
 	case 1: // dense at the top of the address space
@@ -411,7 +415,7 @@ func genMap(t *rapid.T) *refModel {
 }
 
 var edgeU16 = []int{0, 1, 2, 7, 8, 9, 15, 16, 17, 122, 123, 124, 125, 126, 127, 128, 255, 256, 1967, 1968, 1969, 1999, 2000, 2001, 2040, 2041, 2047, 2048,
-	0x7fff, 0x8000, 0x8001, 0xff00, 0xfffe, 0xffff, 0xff80, 0xffc0, 0xfff0}
+	0x7fff, 0x8000, 0x8001, 0xff00, 0xfffe, 0xffff, 0xff80, 0xffc0, 0xfff0, 0x7ff0, 0x7ff8, 0x8010, 0xff00 + 0x88, 2040 * 16, 2041*16 + 3, 4080 * 16, 4095*16 + 15}
 
 func genU16(t *rapid.T, label string) uint16 {
 	if rapid.Bool().Draw(t, label+"Edge") {
